@@ -22,51 +22,87 @@
    between the subscribed check and the Add is the other witness (race.cfg).  *)
 EXTENDS ChanWriter
 
-CONSTANTS EarlyDel, MaxGen
+CONSTANTS
+  EarlyDel, MaxGen,
+  BatchedKinds,   \* push kinds writeEncodedPushData routes through the per-channel writer (the code: pub, join, leave)
+  SubSplit,       \* the broadcast's Add in its two critical sections (getWriter / w.Add); needs AtomicAdd = FALSE
+  CfgSwitch       \* "none"; "latest": GetChannelBatchConfig turns FlushLatestPublication off at run time;
+                  \* "direct": it turns batching off (MaxSize = MaxDelay = 0) at run time
 
 VARIABLES
   sgen,    \* generation of the newest subscription of the connection to the channel
   subd,    \* it is live (c.channels[ch] exists)
   unsub,   \* generation whose unsubscribe is between the two sites (0 = none)
-  tag      \* item id -> generation it was accepted for
-subvars == <<sgen, subd, unsub, tag>>
+  tag,     \* item id -> generation it was accepted for
+  wire,    \* what reached the connection's message writer, in order (flushed batches and direct writes)
+  direct   \* the channel's batch config currently asks for no batching
+subvars == <<sgen, subd, unsub, tag, wire, direct>>
 allvars == <<vars, subvars>>
 
-base == <<cfg, cur, w, tg, infl, nadd, nend, ref>>
+base  == <<cfg, cur, w, tg, infl, nadd, nend, ref>>
+base2 == <<cfg, cur, w, tg, infl, nend, ref>>
 Mark(a) == step' = [act |-> a, fl |-> FALSE, gen |-> 0, orphan |-> FALSE, item |-> NoItem, flushed |-> <<>>]
+Flushed == wire' = wire \o Flat(step'.flushed)
 
-SubInit == Init /\ sgen = 1 /\ subd = TRUE /\ unsub = 0 /\ tag = <<>>
+SubInit == Init /\ sgen = 1 /\ subd = TRUE /\ unsub = 0 /\ tag = <<>> /\ wire = <<>> /\ direct = FALSE
 
-SAdd(it) ==                       \* a broadcast passes the subscribed check and adds
-  /\ subd
-  /\ Add(1, it)
+\* a broadcast passes the subscribed check; writeEncodedPushData sends the push through the channel writer or,
+\* for kinds it does not batch (or when the config asks for no batching), straight to the message writer
+SAdd(it) ==
+  /\ subd /\ ~SubSplit
   /\ tag' = Append(tag, sgen)
-  /\ UNCHANGED <<sgen, subd, unsub>>
+  /\ IF it.k \in BatchedKinds /\ ~direct
+       THEN Add(1, it) /\ Flushed
+       ELSE /\ nadd < MaxAdds /\ nadd' = nadd + 1 /\ UNCHANGED base2
+            /\ step' = [act |-> "Direct", fl |-> FALSE, gen |-> 0, orphan |-> FALSE, item |-> it, flushed |-> <<>>]
+            /\ wire' = Append(wire, it)
+  /\ UNCHANGED <<sgen, subd, unsub, direct>>
 
-STimer(x) == TimerFire(x) /\ UNCHANGED subvars
+SGet(it) ==                       \* ... the same in two steps: getWriter now, w.Add later
+  /\ subd /\ SubSplit /\ it.k \in BatchedKinds /\ ~direct
+  /\ GetWriter(1, it)
+  /\ tag' = Append(tag, sgen)
+  /\ UNCHANGED <<sgen, subd, unsub, wire, direct>>
+SWAdd == SubSplit /\ WAdd(1) /\ Flushed /\ UNCHANGED <<sgen, subd, unsub, tag, direct>>
+
+STimer(x) == TimerFire(x) /\ Flushed /\ UNCHANGED <<sgen, subd, unsub, tag, direct>>
 
 UnsubBegin ==
   /\ subd /\ unsub = 0
   /\ subd' = FALSE /\ unsub' = sgen
   /\ IF EarlyDel THEN DelWriter(FALSE) ELSE (UNCHANGED base /\ Mark("UnsubBegin"))
-  /\ UNCHANGED <<sgen, tag>>
+  /\ UNCHANGED <<sgen, tag, wire, direct>>
 
 Resub ==
   /\ ~subd /\ sgen < MaxGen
   /\ sgen' = sgen + 1 /\ subd' = TRUE
   /\ UNCHANGED base /\ Mark("Resub")
-  /\ UNCHANGED <<unsub, tag>>
+  /\ UNCHANGED <<unsub, tag, wire, direct>>
 
-UnsubEnd ==                        \* after removeSubscription; then the reply / push of generation `unsub`
-  /\ unsub # 0
+\* after removeSubscription (which waits for in-flight broadcasts: hub shard lock); then the reply / push of `unsub`
+UnsubEnd ==
+  /\ unsub # 0 /\ infl[1].g = 0
   /\ unsub' = 0
   /\ IF ~subd THEN DelWriter(FALSE) ELSE (UNCHANGED base /\ Mark("UnsubEnd"))
-  /\ UNCHANGED <<sgen, subd, tag>>
+  /\ UNCHANGED <<sgen, subd, tag, wire, direct>>
+
+SwitchLatest ==
+  /\ CfgSwitch = "latest" /\ cfg.latest
+  /\ cfg' = [cfg EXCEPT !.latest = FALSE]
+  /\ UNCHANGED <<cur, w, tg, infl, nadd, nend, ref>> /\ Mark("SwitchLatestOff")
+  /\ UNCHANGED subvars
+SwitchDirect ==
+  /\ CfgSwitch = "direct" /\ ~direct
+  /\ direct' = TRUE
+  /\ UNCHANGED base /\ Mark("SwitchBatchingOff")
+  /\ UNCHANGED <<sgen, subd, unsub, tag, wire>>
 
 SubNext ==
-  \/ \E it \in Items(nadd + 1) : SAdd(it)
+  \/ \E it \in Items(nadd + 1) : SAdd(it) \/ SGet(it)
+  \/ SWAdd
   \/ \E x \in tg : STimer(x)
   \/ UnsubBegin \/ Resub \/ UnsubEnd
+  \/ SwitchLatest \/ SwitchDirect
 
 SubSpec == SubInit /\ [][SubNext]_allvars
 
@@ -80,6 +116,11 @@ GenBracket == [][ (step' # step /\ step'.flushed # <<>>) =>
 NoLeftover == (unsub = 0) =>
                 \A g \in 1..Len(w) : \A i \in 1..Len(w[g].buf \o w[g].lat) :
                    subd /\ tag[(w[g].buf \o w[g].lat)[i].id] = sgen
+\* the connection receives the channel's pushes in the order they were produced (ids are the production order);
+\* in latest-publication mode publications may move behind later join / leave pushes of the same flush, nothing else
+WireOrdered == \A i, j \in 1..Len(wire) : i < j =>
+                 \/ wire[i].id < wire[j].id
+                 \/ (cfg.latest /\ ~IsPub(wire[i]) /\ IsPub(wire[j]))
 
-SubView == <<cfg, cur, w, tg, infl, nadd, nend, ref, sgen, subd, unsub, tag>>
+SubView == <<cfg, cur, w, tg, infl, nadd, nend, ref, sgen, subd, unsub, tag, wire, direct>>
 =============================================================================
